@@ -531,9 +531,12 @@ def run(ck):
     from .c13 import rule_occupant
     ck.attempt(rule_occupant, rid="C01.R7")
     # events come out of the queue in (time, precedence) order only if the queue is a heap and is drained by popping (shared with C11)
-    from .c11 import rule_heap_discipline, rule_cut
+    from .c11 import rule_heap_discipline, rule_cut, rule_insertion, rule_derived
     ck.attempt(rule_heap_discipline, rid="C01.R2h")
     ck.attempt(rule_cut, rid="C01.R2c")
+    # every session handed in as a plug-in event is actually queued, and the loop condition `queue empty` means what it says
+    ck.attempt(rule_insertion, rid="C01.R2i")
+    ck.attempt(rule_derived, rid="C01.R2q")
     # an event in a period makes the scheduler run in that period, so connected EVs keep receiving current (shared with C05)
     from .c05 import rule_event_flags
     ck.attempt(rule_event_flags, rid="C01.R8")
